@@ -426,6 +426,73 @@ def _job(args):
         return (T, law, twin, dict(verdict="out-of-subset", paths=0, ms=0.0, backend="pyvc", model=None, detail=str(e), combo=None))
 
 
+def _native_value(T, k):
+    import importlib
+    sr = importlib.import_module("genlm.grammar.semiring")
+    cls = getattr(sr, T)
+    vals = {"Boolean": [True, False], "Real": [0.5, 0.25], "MaxPlus": [-0.5, -2.0], "MaxTimes": [0.5, 0.25], "Log": [-0.5, -2.0],
+            "Entropy": [(0.5, 0.25), (0.25, 0.5)], "Expectation": [(0.5, 0.25), (0.25, 0.5)]}[T][k]
+    return cls(*vals) if isinstance(vals, tuple) else cls(vals)
+
+
+def purity(run):
+    """C16/semiring.<T>/operators-pure: frame condition `modifies nothing` on every method a weight of type T answers to (its own and
+    the inherited ones, whatever their names: an added __iadd__/__imul__ is enumerated like any other), except the constructor, which
+    may write the object under construction.  The algebraic obligations are per-call; this frame makes them hold after every history
+    (the zero/one constants are shared singletons: Chart.__missing__ hands out R.zero itself)."""
+    from vlib.pyvc import frames
+    import inspect
+    for T in TYPES:
+        name = f"C16/semiring.{T}/operators-pure"
+        node = source.find(REL, T)
+        classes = [node] + ([source.find(REL, "Semiring")] if T != "Float" else [])
+        seen, findings, unclassified, n = set(), [], [], 0
+        for c in classes:
+            for ch in c.body:
+                if not isinstance(ch, ast.FunctionDef) or ch.name == "__init__" or ch.name in seen:
+                    continue
+                seen.add(ch.name)
+                n += 1
+                f, u = frames.FrameChecker(ch, frames.Spec(), {}).check()
+                findings += [(ch.name, x) for x in f]
+                unclassified += [(ch.name, x) for x in u]
+        if not findings:
+            if unclassified:
+                run.obligation(name, "unknown", backend="ownership", detail="unclassified: " + "; ".join(f"{m}: {x!r}" for m, x in unclassified[:3]))
+            else:
+                run.obligation(name, "proved", backend="ownership", detail=f"{n} methods: no store to an operand, to the class or to a module constant")
+            continue
+        replay = dict(type=T, findings=[f"{m}: {x!r}" for m, x in findings], replayed=False)
+        if T != "Float":
+            # replay natively: call the offending method on fresh operands and on the shared constants and look for a changed operand
+            import importlib
+            cls = getattr(importlib.import_module("genlm.grammar.semiring"), T)
+            for m, _ in findings:
+                for left in ("zero", "one", "fresh"):
+                    a = getattr(cls, left) if left != "fresh" else _native_value(T, 0)
+                    b = _native_value(T, 1)
+                    before = (repr(a), repr(b), repr(cls.zero), repr(cls.one))
+                    saved = a.score
+                    try:
+                        fn = getattr(a, m)
+                        k = len(inspect.signature(fn).parameters)
+                        fn(*([b] * k))
+                    except Exception:  # noqa: BLE001
+                        continue
+                    after = (repr(a), repr(b), repr(cls.zero), repr(cls.one))
+                    try:
+                        a.score = saved
+                    except Exception:  # noqa: BLE001
+                        pass
+                    if before != after:
+                        replay.update(replayed=True, method=m, receiver=left, argument=repr(b), before=before, after=after)
+                        break
+                if replay["replayed"]:
+                    break
+        run.obligation(name, "refuted", backend="ownership", detail=f"{findings[0][0]}: {findings[0][1]!r}", model=dict(findings=replay["findings"]),
+                       replay=replay, signature=f"{T}:operators-pure")
+
+
 def run(run, only=None):
     import multiprocessing as mp
     run.trust("pyvc symbolic interpreter (vlib/pyvc/interp.py), cross-checked against CPython this run",
@@ -498,6 +565,7 @@ def run(run, only=None):
         else:
             run.obligation(name, r["verdict"], backend=r["backend"], ms=r["ms"], detail=r.get("detail", ""))
     run.extra["must_fail_twins_refuted"] = refuted_twins
+    purity(run)
     if len(run.obligations) == 0:
         raise RuntimeError("vacuity guard: zero obligations generated")
 
